@@ -530,6 +530,7 @@ pub fn run_check<K: Check>(check: &K, opts: &Options) -> i32 {
         .filter(|d| Some(d.0) <= cutoff)
         .collect();
     let det_checked = second.len();
+    let mut det_mismatch = false;
     if !sample_indexes.is_empty() && first_cmp != second {
         let diff = first_cmp
             .iter()
@@ -537,12 +538,17 @@ pub fn run_check<K: Check>(check: &K, opts: &Options) -> i32 {
             .find(|(a, b)| a != b)
             .map(|(a, b)| format!("{:?} vs {:?}", a, b))
             .unwrap_or_else(|| format!("lengths {} vs {}", first_cmp.len(), second.len()));
+        // Not fatal: on the unchanged tree the self-test (tools/selftest-determinism.sh) shows
+        // that execution is a function of the plan, so a mismatch here means the code under
+        // test draws on something outside the simulator's seams (a randomly keyed hasher, an
+        // address, a wall clock). That is not a violation of any property; it only means that a
+        // violation found in this batch may not replay. It is reported and recorded.
         eprintln!(
-            "HARNESS-ERROR nondeterminism detected in check {}: {}",
+            "NONDETERMINISM check={} re-executing sampled run indexes gave a different event log ({}): the code under test is not a function of the plan and the simulator's seeds; findings of this batch may not replay",
             check.id(),
             diff
         );
-        return 2;
+        det_mismatch = true;
     }
 
     // Aggregate
@@ -710,6 +716,7 @@ pub fn run_check<K: Check>(check: &K, opts: &Options) -> i32 {
                 "probes": probes,
                 "counters": counters,
                 "determinism_rerun_evaluations": det_checked,
+                "determinism_rerun_mismatch": det_mismatch,
                 "known_finding_hits": known_hits,
                 "real_components": real,
                 "stub_components": stub,
